@@ -431,7 +431,7 @@ func (x *Executor) binop(fr *Frame, op token.Token, a, b Val, resTy types.Type, 
 	case token.SUB:
 		return x.arithResult(fr, fmt.Sprintf("(- %s %s)", a.T, b.T), resTy, reach, "subtraction")
 	case token.MUL:
-		return x.arithResult(fr, fmt.Sprintf("(* %s %s)", a.T, b.T), resTy, reach, "multiplication")
+		return x.arithResult(fr, mulTerm(a.T, b.T), resTy, reach, "multiplication")
 	case token.QUO:
 		x.check(fr, "div", fmt.Sprintf("(not (= %s 0))", b.T), reach, "division by zero")
 		// the only overflowing case is MinInt / -1 (wraps to MinInt); otherwise |a/b| <= |a|
@@ -563,32 +563,9 @@ func (u *Unit) equalTerms(a, b string, ty types.Type) string {
 			if b == "(mk-iface 0 0)" {
 				return fmt.Sprintf("(= (i.tag %s) 0)", a)
 			}
-		case *types.Array:
-			if tt.Len() <= 64 {
-				var parts []string
-				for i := int64(0); i < tt.Len(); i++ {
-					parts = append(parts, u.equalTerms(fmt.Sprintf("(select %s %d)", a, i), fmt.Sprintf("(select %s %d)", b, i), tt.Elem()))
-				}
-				if len(parts) == 0 {
-					return "true"
-				}
-				return "(and " + strings.Join(parts, " ") + ")"
-			}
-			return fmt.Sprintf("(forall ((eqi Int)) (=> (and (<= 0 eqi) (< eqi %d)) %s))", tt.Len(), u.equalTerms(fmt.Sprintf("(select %s eqi)", a), fmt.Sprintf("(select %s eqi)", b), tt.Elem()))
-		case *types.Struct:
-			// fieldwise when the struct contains arrays (garbage outside array bounds must not matter)
-			if structHasArray(tt) {
-				u.sortOf(ty)
-				var parts []string
-				for i := 0; i < tt.NumFields(); i++ {
-					acc := u.fieldAcc(ty, i)
-					parts = append(parts, u.equalTerms(fmt.Sprintf("(%s %s)", acc, a), fmt.Sprintf("(%s %s)", acc, b), tt.Field(i).Type()))
-				}
-				if len(parts) == 0 {
-					return "true"
-				}
-				return "(and " + strings.Join(parts, " ") + ")"
-			}
+		case *types.Array, *types.Struct:
+			// array values are normalised (zero outside their bounds), so SMT equality is Go equality
+			_ = tt
 		}
 	}
 	return fmt.Sprintf("(= %s %s)", a, b)
